@@ -1122,9 +1122,66 @@ class CallMixin:
             finally:
                 self.spec -= 1
         self.trace_event(st, "chan.recv")
+        if not getattr(self, "in_comm", 0):
+            self.bare_block(e, st, "receive")
         if commaok:
             return v, self.fresh("recvok", z3.BoolSort())
         return v
+
+    def comm_target(self, comm):
+        if comm is None:
+            return None
+        if comm["k"] == "SendStmt":
+            return comm["Chan"]
+        if comm["k"] == "ExprStmt" and comm["X"].get("k") == "UnaryExpr":
+            return comm["X"]["X"]
+        if comm["k"] == "AssignStmt" and comm["Rhs"] and comm["Rhs"][0].get("k") == "UnaryExpr":
+            return comm["Rhs"][0]["X"]
+        return None
+
+    def check_waits(self, s, st, clauses):
+        """`waits [label] x` (x a channel or a context): every select of this call that can block (no default) also waits on x,
+        so whoever closes x / cancels it releases the call wherever it is parked."""
+        c = self.cur_func.contract if self.cur_func is not None else None
+        if c is None or self.spec or not c.of("waits"):
+            return
+        if any(cc.get("Comm") is None for cc in clauses):
+            return  # a select with a default clause never parks
+        ctxs, chans = [], []
+        for cc in clauses:
+            tgt = self.comm_target(cc.get("Comm"))
+            if tgt is None:
+                continue
+            try:
+                if tgt.get("k") == "CallExpr" and (tgt.get("callee") or "").endswith("context.(Context).Done"):
+                    ctxs.append(self.ev(tgt["Fun"]["X"], st).oid)
+                elif tgt.get("k") in ("Ident", "SelectorExpr"):
+                    v = self.ev(tgt, st)
+                    if isinstance(v, OpaqueV):
+                        chans.append(v.term)
+            except (Unsupported, AttributeError):
+                pass
+        for cl in c.of("waits"):
+            try:
+                v = self.eval_clause(cl, st, boolean=False)
+            except ClauseError as ex:
+                self.oblige(st, "waits", "%s@%s" % (cl["label"], self.site(s)), FALSE, cl.get("ln"), str(ex))
+                continue
+            if isinstance(v, IfaceV):
+                g = zor(*[x == v.oid for x in ctxs]) if ctxs else FALSE
+            elif isinstance(v, OpaqueV):
+                g = zor(*[x == v.term for x in chans if x.sort() == v.term.sort()]) if chans else FALSE
+            else:
+                raise Unsupported("waits clause of this type")
+            self.oblige(st, "waits", "%s@%s" % (cl["label"], self.site(s)), g, cl.get("ln"), "every parking select waits on: " + cl["text"])
+
+    def bare_block(self, s, st, what):
+        """A channel operation outside a select parks with no release: not allowed in a function that declares `waits`."""
+        c = self.cur_func.contract if self.cur_func is not None else None
+        if c is None or self.spec or not c.of("waits"):
+            return
+        self.oblige(st, "waits", "bare-%s@%s" % (what, self.site(s)), FALSE, s.get("ln"),
+                    "a channel %s outside a select cannot be released by the declared `waits` conditions" % what)
 
     def record_armed(self, st, tgt):
         """The set of contexts (through ctx.Done()) and channels a select of this call waits on, by value."""
@@ -1188,6 +1245,8 @@ class CallMixin:
                 self.spec -= 1
             self.oblige(st, "chaninv", "send@%s" % self.site(s), g, s.get("ln"), "value sent on the channel satisfies the declared channel invariant")
         self.trace_event(st, "chan.send")
+        if not getattr(self, "in_comm", 0):
+            self.bare_block(s, st, "send")
         return st
 
     def select_stmt(self, s, st):
@@ -1219,19 +1278,24 @@ class CallMixin:
                 self.trace_event(st, "select.arm:" + self.expr_text(tgt))
                 self.trace_event(st, "select.arm:any")
                 self.record_armed(st, tgt)
+        self.check_waits(s, st, clauses)
         for k, cc in enumerate(clauses):
             cst = st.fork(zand(st.pc, choice == idx(k)))
             comm = cc.get("Comm")
             if comm is not None:
                 kk = comm["k"]
-                if kk == "SendStmt":
-                    cst = self.chan_send(comm, cst)
-                elif kk == "ExprStmt":
-                    self.ev(comm["X"], cst)
-                elif kk == "AssignStmt":
-                    cst = self.ex(comm, cst)
-                else:
-                    raise Unsupported("select comm " + kk)
+                self.in_comm = getattr(self, "in_comm", 0) + 1
+                try:
+                    if kk == "SendStmt":
+                        cst = self.chan_send(comm, cst)
+                    elif kk == "ExprStmt":
+                        self.ev(comm["X"], cst)
+                    elif kk == "AssignStmt":
+                        cst = self.ex(comm, cst)
+                    else:
+                        raise Unsupported("select comm " + kk)
+                finally:
+                    self.in_comm -= 1
             outs.append(self.ex_block(cc.get("Body"), cst) if cst is not None else None)
         fr.loops.pop()
         return self.join(outs + ctx.breaks)
